@@ -129,6 +129,7 @@ def run(ctx, fa, own):
             else:
                 fail("C03.skip", "layout-skip", got=(repr(v)[:200]), pos=pos)
             # (3) out-of-range indices planted at every union / enum position must raise
+            rdef = _with_enum_defaults(raw)
             for e, bads in zip(g["ix"], g["bad"]):
                 for bad in bads:
                     patched = data[:e["pos"]] + bytes(bad) + data[e["pos"] + e["len"]:]
@@ -139,6 +140,13 @@ def run(ctx, fa, own):
                         ctx.count("C03.index", "ok")
                     else:
                         fail("C03.index", "index-accepted", kind="negative" if bv < 0 else "too-large", index=bv, n=e["n"], got=repr(v)[:120])
+                    # ... also when a reader schema is given whose enums have a default (an index outside the WRITER's list is not
+                    # "a symbol the reader does not know": there is no symbol)
+                    kind, v, pos = read_outcome(fa, patched, raw, rdef)
+                    if kind == "raise":
+                        ctx.count("C03.index", "ok")
+                    else:
+                        fail("C03.index", "index-accepted-with-reader-default", index=bv, n=e["n"], got=repr(v)[:120])
         # (2b) skipped as the LAST thing of the input (a reader schema that drops the field): a cut inside the skipped value must still raise
         if own("C03.") or own("C06."):
             sp_clause = "C03.skip_prefix" if own("C03.") else "C06.skip_prefix"
@@ -178,6 +186,29 @@ def run(ctx, fa, own):
         if isinstance(g, dict) and g.get("st") == "ok":
             ctx.sample({"schema": raws[c["id"]], "datum": repr(proj.unpv(c["datum"]))[:160], "layout_bytes": bytes(g["b"]).hex()[:120],
                         "index_positions": g["ix"][:4]})
+
+
+def _with_enum_defaults(raw):
+    """The same schema with a default given to every enum (a reader schema that differs from the writer's in that only)."""
+    import copy
+    s = copy.deepcopy(raw)
+
+    def walk(n):
+        if isinstance(n, list):
+            for b in n:
+                walk(b)
+        elif isinstance(n, dict):
+            if n.get("type") == "enum" and n.get("symbols"):
+                n.setdefault("default", n["symbols"][0])
+            for k in ("items", "values"):
+                if k in n:
+                    walk(n[k])
+            for f in n.get("fields", []) if isinstance(n.get("fields"), list) else []:
+                walk(f.get("type"))
+            if isinstance(n.get("type"), (dict, list)):
+                walk(n["type"])
+    walk(s)
+    return s
 
 
 def _unvarint(bs):
